@@ -3,9 +3,13 @@ CONSTANT Letters <- MCLetters
 CONSTANT VK <- MCVK
 CONSTANT WK <- MCWK
 CONSTANT Acc <- MCAcc
+CONSTANT Opt <- MCOpt
+CONSTANT Mdl <- MCMdl
+CONSTANT InPlace <- MCInPlace
 CONSTANT MaxLen = 3
 CONSTANT Policy = "as_is"
 CONSTANT SeedsRng = TRUE
+CONSTANT ReaderCopies = FALSE
 INVARIANT TypeOK
 INVARIANT Plan
 CHECK_DEADLOCK FALSE
